@@ -37,7 +37,7 @@ var c19Exprs = []string{
 	// an undefined variable inside an expression reference is reported as such
 	// once the built-in applies the reference to an element
 	"sort_by(b, &$u)", "map(&$u, b)", "max_by(b, &$u)", "min_by(b, &$u)", "group_by(b, &$u)",
-	"let $x = a in map(&[$x, $y], b)", "b[*].[map(&$u, [@])]", "let $x = a in sort_by(b, &(a || $y))",
+	"let $x = a in map(&[$x, $y], b)", "b[*].[map(&$u, [@])]", "let $x = a in sort_by(b, &[$x, $y][0])",
 }
 
 // H_C19_let: differential against the reference's environment-passing scopes.
